@@ -15,6 +15,8 @@ enum Op {
     Size { v: u16 },
     Reset { m: u8 },
     CloneSwap,
+    /// `d.clone_from(&frozen[k])`: continue from an earlier snapshot (possibly of another size)
+    CloneFromFrozen { k: u8 },
 }
 
 #[derive(Clone, Debug, Hash, Serialize, Deserialize, PartialEq)]
@@ -202,6 +204,16 @@ fn run_case(c: &Case) -> CaseResult {
                 unioned = true;
                 big_union = false;
             }
+            Op::CloneFromFrozen { k } => {
+                if !frozen.is_empty() {
+                    let k = *k as usize % frozen.len();
+                    d.clone_from(&frozen[k].0);
+                    m = Model { label: frozen[k].1.clone() };
+                    unioned = true;
+                    big_union = false;
+                    st.label("clone_from");
+                }
+            }
             Op::CloneSwap => {
                 let copy = d.clone();
                 let old = std::mem::replace(&mut d, copy);
@@ -240,6 +252,7 @@ fn op() -> impl Strategy<Value = Op> {
         10 => sel().prop_map(|v| Op::Size { v }),
         2 => any::<u8>().prop_map(|m| Op::Reset { m }),
         2 => Just(Op::CloneSwap),
+        2 => any::<u8>().prop_map(|k| Op::CloneFromFrozen { k }),
     ]
 }
 
